@@ -109,10 +109,10 @@ Fixpoint insert_str (x : string) (l : list string) : list string :=
   end.
 Definition sort_strs (l : list string) : list string := fold_right insert_str [] l.
 
-(* fSys.Glob on the in-memory file system: regular files matching, sorted
+(* fSys.Glob on the disk file system (filepath.Glob): files AND directories matching, sorted
    (hidden files are outside the model's domain) *)
 Definition fs_glob (e : env) (pat : string) : list string :=
-  sort_strs (filter (gmatch pat) (map fst (e_files e))).
+  sort_strs (filter (gmatch pat) (map fst (e_files e) ++ e_dirs e)).
 
 (* util.GlobPatterns *)
 Definition glob_patterns (e : env) (pats : list string) : list string :=
@@ -555,6 +555,15 @@ Inductive op :=
 Definition wrote (k : kust) : res (option kust) := Ok (Some k).
 Definition nothing : res (option kust) := Ok None.
 
+(* add base: every path must exist and be new *)
+Fixpoint add_bases (e : env) (ps cur : list string) : res (list string) :=
+  match ps with
+  | [] => Ok cur
+  | p :: t => if negb (path_exists e p) then Err
+              else if str_in p cur then Err
+              else add_bases e t (cur ++ [p])
+  end.
+
 Definition add_paths (skipk : bool) (e : env) (rk : res kust) (paths : list string)
            (getf : kust -> list string) (setf : list string -> kust -> kust) : res (option kust) :=
   match paths with
@@ -581,13 +590,8 @@ Definition apply_op (e : env) (rk : res kust) (o : op) : res (option kust) :=
       match args with
       | [a] =>
           do k <- rk;
-          (fix go (ps : list string) (cur : list string) : res (option kust) :=
-             match ps with
-             | [] => wrote (set_resources cur k)
-             | p :: t => if negb (path_exists e p) then Err
-                         else if str_in p cur then Err
-                         else go t (cur ++ [p])
-             end) (split_on ","%char a) (k_resources k)
+          do l <- add_bases e (split_on ","%char a) (k_resources k);
+          wrote (set_resources l k)
       | _ => Err
       end
   | AddTransformer pats =>
